@@ -205,9 +205,13 @@ fn main() {
 
     // (c) boundary numerals in each numeric position
     let nums = ["0", "1", "00", "01", "4294967295", "4294967296", "18446744073709551615",
-        "18446744073709551616", "99999999999999999999999", "100000000000000000000000000000"];
+        "18446744073709551616", "99999999999999999999999", "100000000000000000000000000000",
+        // zero-padded numerals below, at and above the integer widths (a numeric identifier never has a leading zero, however
+        // long it is; build identifiers may), numerals with trailing zeros, and digit runs that a letter or hyphen makes alphanumeric
+        "04294967296", "018446744073709551615", "018446744073709551616", "0018446744073709551616", "099999999999999999999999", "000000000000000000000000000001",
+        "0000000000000000000000000000000", "10", "100", "18446744073709551610", "184467440737095516160", "018446744073709551616a", "018446744073709551616-", "99999999999999999999a", "-018446744073709551616"];
     let templates = ["{N}.0.0", "0.{N}.0", "0.0.{N}", "1.0.0-{N}", "1.0.0-a.{N}", "1.0.0-{N}.a", "1.0.0+{N}",
-        "1.0.0-x+{N}", "1.0.0+a.{N}", "v{N}.{N}.{N}-{N}+{N}"];
+        "1.0.0-x+{N}", "1.0.0+a.{N}", "v{N}.{N}.{N}-{N}+{N}", "1.0.0-rc.{N}.1", "1.0.0-{N}.{N}"];
     let mut sc = Stats::default();
     let mut c_samples = vec![];
     for t in templates {
